@@ -213,8 +213,8 @@ Definition c03_key (e i c : N) : key := mkKey e i 7 c.
 Definition c03_order (e i c : N) (st : ostate) : order := mkOrder (c03_key e i c) Buy 100 2 Limit GTD st.
 Definition c03_state : state :=
   mkState true [LOpen []; LClosed; LMissing]
-    [ mkInst 0 0 1 [(1, c03_order 0 0 1 (OOpen (mkMeta 11 5 0)))] None None;
-      mkInst 1 2 3 [(1, c03_order 1 1 1 OIF)] None None ].
+    [ mkInst 0 0 1 [(1, c03_order 0 0 1 (OOpen (mkMeta 11 5 0)))] None (mkMD (mkL1 0 None None) None);
+      mkInst 1 2 3 [(1, c03_order 1 1 1 OIF)] None (mkMD (mkL1 0 None None) None) ].
 Definition c03_script : gscript :=
   mkGScript [mkCReq (c03_key 0 0 1) (Some 11); mkCReq (c03_key 1 1 1) None]
             [mkOReq (c03_key 0 0 2) (mkROpen Sell 101 1 Market IOC);
